@@ -118,11 +118,37 @@ def catalogue():
     # frames
     C["to_df"] = (lambda E: [E.x.to_df(), E.x.to_df(index=False), E.x.to_df(dim_to_columns="Alpha"), E.y.to_df(sparse=False)] and [], False)
     C["from_df"] = (lambda E: [FlodymArray.from_df(dims=E.x.dims, df=E.x.to_df()), FlodymArray.from_df(dims=E.ds("ba"), df=E.x.to_df(dim_to_columns="b", index=False))], False)
+    C["from_df_caller_frame"] = (lambda E: _from_df_frame(E), False)
     # stack / split
     C["stack"] = (lambda E: [flodym_array_stack([E.x, E.z], Dimension(name="Stacked", letter="k", items=["k1", "k2"]))], False)
     # assignment leaves the right-hand side alone
     C["setitem_rhs"] = (lambda E: _setitem_rhs(E), False)
     return C
+
+
+def _from_df_frame(E):
+    """from_df / set_values_from_df must not write into the caller's DataFrame"""
+    import pandas as pd
+    from flodym import FlodymArray, Dimension, DimensionSet
+
+    single = Dimension(name="Scenario", letter="s", items=["only"])
+    ds = DimensionSet(dim_list=[E.D["a"], single, E.D["b"]])
+    frames = []
+    df1 = E.x.to_df(index=False)  # default RangeIndex, full names, long format, the one-item dimension left out
+    frames.append((df1, ds))
+    df2 = E.tx.to_df(index=False)
+    df2["Time"] = df2["Time"].astype(str)  # a typed dimension whose column holds another type
+    frames.append((df2, E.tx.dims))
+    out = []
+    for df, d in frames:
+        before = df.copy(deep=True)
+        out.append(FlodymArray.from_df(dims=d, df=df))
+        t = FlodymArray(dims=d)
+        t.set_values_from_df(df)
+        same = list(df.columns) == list(before.columns) and len(df) == len(before) and all(
+            (df[c].tolist() == before[c].tolist()) or all(a is b or a == b for a, b in zip(df[c].tolist(), before[c].tolist())) for c in before.columns) and df.dtypes.astype(str).tolist() == before.dtypes.astype(str).tolist()
+        E.w.ob(f"caller_frame_unchanged[{len(out)}]", bool(same), info=f"columns {list(df.columns)} dtypes {df.dtypes.astype(str).tolist()}")
+    return out
 
 
 def _setitem_rhs(E):
@@ -218,6 +244,10 @@ def bad_stock_calls():
     B["stock_time_not_first"] = lambda E: SimpleFlowDrivenStock(dims=E.ds("at"))
     B["stock_array_other_length"] = lambda E: SimpleFlowDrivenStock(dims=E.tx.dims, inflow=StockArray(dims=other_time(E, [2000, 2001])))
     B["stock_array_other_items"] = lambda E: SimpleFlowDrivenStock(dims=E.tx.dims, outflow=StockArray(dims=other_time(E, [1990, 1991, 1993])))
+    B["stock_array_prefix_dims"] = lambda E: SimpleFlowDrivenStock(dims=E.tx.dims, inflow=StockArray(dims=E.ds("t")))
+    B["stock_array_extended_dims"] = lambda E: SimpleFlowDrivenStock(dims=E.tx.dims, outflow=StockArray(dims=E.ds("tab")))
+    B["dsm_lifetime_prefix_dims"] = lambda E: InflowDrivenDSM(dims=E.tx.dims, lifetime_model=FixedLifetime(dims=E.ds("t"), mean=2.0))
+    B["dsm_lifetime_extended_dims"] = lambda E: StockDrivenDSM(dims=E.tx.dims, lifetime_model=FixedLifetime(dims=E.ds("tab"), mean=2.0))
     B["dsm_lifetime_other_letters"] = lambda E: InflowDrivenDSM(dims=E.tx.dims, lifetime_model=FixedLifetime(dims=E.ds("tb"), mean=2.0))
     B["dsm_lifetime_other_length"] = lambda E: InflowDrivenDSM(dims=E.tx.dims, lifetime_model=FixedLifetime(dims=other_time(E, [2000, 2001]), mean=2.0))
     B["dsm_lifetime_not_a_model"] = lambda E: InflowDrivenDSM(dims=E.tx.dims, lifetime_model=int)
